@@ -12,7 +12,7 @@ use crate::refmodel::{graph, tape_shadow};
 use crate::util::{Rng, Stats, Tier, fbits, guarded};
 use crate::{Mode, Prop};
 use fidget_core::context::Node;
-use fidget_core::eval::{Function, Tape};
+use fidget_core::eval::Tape;
 use fidget_core::types::Interval;
 use fidget_core::vm::{Choice, VmFunction};
 use fidget_jit::JitFunction;
